@@ -152,6 +152,26 @@ theorem C06_capacity_generated (r : CellRec) (a : Aid) (k : Nat) (hk : r.capacit
     simp [hf, h]
     omega
 
+/-- The same for ANY integer capacity the record may hold (the model has capacities ≥ 0 only; the generated text does not care):
+    an accepted add found strictly fewer agents than the capacity — so a negative capacity, like 0, takes nobody — and a record
+    without a capacity accepts always. -/
+theorem C06_capacity_generated_any_int (r : CellRec) (a : Aid) :
+    (∀ cap : Int, r.capacity = some cap → ((add_agent r a).1 = .ok () ↔ (r._agents.length : Int) < cap)) ∧
+    (r.capacity = none → (add_agent r a).1 = .ok ()) := by
+  rw [gen_add_agent_spec]
+  constructor
+  · intro cap hc
+    have hf : recFull r = decide ((r._agents.length : Int) ≥ cap) := by simp only [recFull, hc]
+    by_cases h : (r._agents.length : Int) ≥ cap
+    · have : ¬ (r._agents.length : Int) < cap := by omega
+      simp [hf, h, this]
+    · have h1 : (r._agents.length : Int) < cap := by omega
+      have h2 : ¬ cap ≤ (r._agents.length : Int) := by omega
+      simp [hf, h1, h2]
+  · intro hc
+    have hf : recFull r = false := by simp only [recFull, hc]
+    simp [hf]
+
 /-- `empty` agrees with "no agents" after every accepted add / remove, over the generated text. -/
 theorem C06_empty_flag_generated (r : CellRec) (a : Aid) :
     ((add_agent r a).1 = .ok () → ((add_agent r a).2.2 = true ↔ (add_agent r a).2.1 = [])) ∧
